@@ -149,3 +149,58 @@ def check_sampled(ctx, fam, desc, F, good, bad, key):
     ctx.count("sampled_cases")
     ctx.judged(key, sample={"family": fam, "case": desc, "variables": F.number_of_variables(), "mode": "sampled"})
     return ok
+
+
+# ---------------------------------------------------------------- histories on one graph object
+def same_formula(A, B):
+    return (A.number_of_variables() == B.number_of_variables() and list(A.all_variable_labels()) == list(B.all_variable_labels())
+            and [list(c) for c in A] == [list(c) for c in B])
+
+
+def graph_history_check(ctx, fam, label, gen, r, n=6, rounds=3):
+    """A generator's output must be a function of the graph's *current* state: build a formula, then edit the same
+    Graph object (swap an edge: vertex and edge counts unchanged; grow it by two vertices in one call and connect
+    them) and build again; the result must equal the formula of a freshly built graph with the same edges."""
+    from cnfgen.graphs import Graph
+    allp = pairs(n)
+    E = set(r.sample(allp, r.randint(2, max(2, len(allp) // 2))))
+    G = Graph(n)
+    for e in sorted(E):
+        G.add_edge(*e)
+    st, _ = ctx.call(gen, G)
+    if st == "exc":
+        return
+    for step in range(rounds):
+        kind = r.choice(["swap", "swap", "grow"])
+        if kind == "swap" and E and len(E) < len(allp):
+            e = r.choice(sorted(E))
+            f = r.choice(sorted(set(allp) - E))
+            G.remove_edge(*e)
+            G.add_edge(*f)
+            E = (E - {e}) | {f}
+            what = "remove_edge%r; add_edge%r" % (e, f)
+        else:
+            G.update_vertex_number(n + 2)
+            new = [(r.randint(1, n), n + 1), (r.randint(1, n), n + 2), (n + 1, n + 2)][:r.randint(1, 3)]
+            for e in new:
+                G.add_edge(*e)
+            E |= set(new)
+            n += 2
+            allp = pairs(n)
+            what = "update_vertex_number(%d); add_edge %r" % (n, new)
+        fresh = Graph(n)
+        for e in sorted(E):
+            fresh.add_edge(*e)
+        st2, F2 = ctx.call(gen, G)
+        st3, F3 = ctx.call(gen, fresh)
+        ctx.count("graph_object_histories")
+        if st2 != st3:
+            ctx.violation("%s:graph-history:outcome-differs" % fam, "%s after %s: edited object -> %s, fresh graph with the same edges -> %s"
+                          % (label, what, st2, st3))
+            return
+        if st2 == "ok" and not same_formula(F2, F3):
+            ctx.violation("%s:graph-history:formula-of-an-earlier-state" % fam,
+                          "%s after %s on the same Graph object: the formula differs from the one built on a fresh graph with the "
+                          "same %d edges" % (label, what, len(E)))
+            return
+        ctx.judged(("history", fam, label, step, tuple(sorted(E))), sample={"family": fam, "history": what, "edges": sorted(E)[:10]})
